@@ -179,7 +179,12 @@ class Analysis:
                 if f in imported:
                     self.w.append(W("C03", "name-shadows-import", f"field {f!r} of class {nm} shadows a name the module imports",
                                     name=f, what="field"))
+        fields_of = {c["scope"] + (c["name"],): set(c["fields"]) for c in cen["classes"]}
         for scope, names in scopes.items():
+            clash = set(names) & fields_of.get(scope, set())
+            if clash:
+                self.w.append(W("C03", "class-field-name-clash", f"nested class and field share the name {sorted(clash)} in scope "
+                                                                 f"{'.'.join(scope)}", names=sorted(clash)))
             dups = {n for n in names if names.count(n) > 1}
             if dups:
                 self.w.append(W("C03", "duplicate-class-name", f"classes {sorted(dups)} defined twice in scope {'.'.join(scope) or '<module>'}"))
@@ -213,6 +218,7 @@ class Analysis:
                 return
             roots.append((cls, samples))
         # (1) pydantic itself as the acceptor
+        pyd_fail = []
         if fw in ("pydantic", "sqlmodel"):
             n = 0
             for cls, samples in roots:
@@ -223,15 +229,7 @@ class Analysis:
                     except Exception as e:
                         if type(e).__name__ == "CaseTimeout":
                             raise
-                        locs = ""
-                        try:
-                            errs = e.errors()
-                            locs = "; ".join(f"{'.'.join(map(str, er['loc']))}: {er['msg']}" for er in errs[:3])
-                            kinds = sorted({er["type"].split(".")[0] for er in errs})
-                        except Exception:
-                            kinds = [type(e).__name__]
-                        self.w.append(W("C01", "pydantic-parse-rejected:" + ",".join(kinds)[:60],
-                                        f"{cls.__name__}.parse_obj(sample {i}) failed: {locs or e}", sample=i))
+                        pyd_fail.append((cls, i, s, e))
                         break
             st["pydantic_parsed"] = n
         # (2) structural acceptor, all frameworks
@@ -242,6 +240,9 @@ class Analysis:
         for kind, path, msg in errs[:5]:
             self.w.append(W("C01", kind, f"{path}: {msg}", path=path))
         st.update({f"orc_{k}": v for k, v in orc.stats.items()})
+        for cls, i, s, e in pyd_fail:
+            mech, msg = explain_pydantic(e, s, structural_ok=not errs)
+            self.w.append(W("C01", mech, f"{cls.__name__}.parse_obj(sample {i}) failed: {msg}", sample=i))
         if any(w["property"] == "C01" for w in self.w):
             self.blocked["C02"] = "acceptance failed on this execution"
             return
@@ -315,6 +316,72 @@ class Analysis:
     def close(self):
         if self.mod is not None:
             mme.unload(self.mod)
+
+
+def _at(sample, loc):
+    v = sample
+    for p in loc:
+        try:
+            v = v[p]
+        except (KeyError, IndexError, TypeError):
+            return oracle.MISSING
+    return v
+
+
+def _strings(v):
+    if isinstance(v, str):
+        yield v
+    elif isinstance(v, dict):
+        for x in v.values():
+            yield from _strings(x)
+    elif isinstance(v, list):
+        for x in v:
+            yield from _strings(x)
+
+
+_PYD_ACTUAL = {"date": "IsoDateString", "time": "IsoTimeString", "datetime": "IsoDatetimeString"}
+
+
+def explain_pydantic(e, sample, structural_ok):
+    """classify a pydantic rejection.  When the independent structural acceptor accepted the sample, the
+    rejection is pydantic-specific; two known causes are recognised from the error records themselves:
+    (a) pydantic.v1 rejects None for Optional[List[None]] / Optional[Dict[str, None]];
+    (b) pydantic's own parser for date/time/datetime is narrower than the pseudo-type parser that detected
+        the string.  Anything else stays unexplained."""
+    try:
+        errs = e.errors()
+    except Exception:
+        # not a ValidationError: pydantic.v1's own date/time parsers leak OverflowError for strings such as
+        # "-Infinity" or "-7" (tried as a unix timestamp), which aborts parse_obj whenever such a string meets
+        # a date/time annotation - even as one member of a Union whose other member would accept it
+        if structural_ok and not isinstance(e, ValueError):
+            import pydantic.v1.datetime_parse as dp
+            for v in _strings(sample):
+                for actual in _PYD_ACTUAL:
+                    try:
+                        getattr(dp, "parse_" + actual)(v)
+                    except ValueError:
+                        pass
+                    except Exception as e2:
+                        if type(e2) is type(e) and str(e2) == str(e):
+                            return f"pydantic-quirk:parser-leaks-{type(e).__name__}", f"{type(e).__name__}: {e} (string {v!r} -> parse_{actual})"
+        return f"pydantic-parse-rejected:{type(e).__name__}", str(e)
+    msg = "; ".join(f"{'.'.join(map(str, er['loc']))}: {er['msg']}" for er in errs[:3])
+    kinds = sorted({er["type"].split(".")[0] for er in errs})
+    causes = set()
+    if structural_ok:
+        for er in errs:
+            v = _at(sample, er["loc"])
+            t = er["type"]
+            if v is None and t in ("type_error.list", "type_error.dict"):
+                causes.add("container-of-None")
+            elif isinstance(v, str):
+                for actual, pname in _PYD_ACTUAL.items():
+                    if t == f"value_error.{actual}" and oracle.p_accepts(driver.STR_CLASSES[pname], v)[0]:
+                        causes.add(f"narrower-than-detector:{actual}")
+    if causes:
+        return "pydantic-quirk:" + ",".join(sorted(causes)), msg
+    return "pydantic-parse-rejected:" + ",".join(kinds)[:60], msg
 
 
 def has_model(T, classes):
